@@ -122,7 +122,7 @@ impl Property for C13 {
             if let Ok(m) = naga_parse(&wgsl) {
                 let naga_size = m.global_variables.iter().find(|(_, g)| g.space == naga::AddressSpace::PushConstant).map(|(_, g)| m.types[g.ty].inner.size(m.to_ctx()));
                 if naga_size != truth {
-                    eprintln!("C13: note: hand-computed size {truth:?} and naga size {naga_size:?} disagree on case {i}; case dropped");
+                    note(format!("hand-computed size {truth:?} and naga size {naga_size:?} disagree on case {i}; case dropped"));
                     continue;
                 }
             }
